@@ -170,6 +170,14 @@ C06_Request(pre, E, post) ==
                            /\ Others(pre.trackers, E.who) = Others(post.trackers, E.who), "C06", "isolation")
                   ELSE {})
 
+\* users holding the same locator hold independent appointments: when its dispute is confirmed every one of them is
+\* answered from its OWN blob (own penalty, own decryption failure, own verdict of the node)
+C06_WConnect(pre, E, post, g) ==
+    LET shared == {a \in pre.appts : a.l \in E.blk.keys /\ \E b \in pre.appts : b.l = a.l /\ b.u # a.u}
+    IN Tag(\A a \in shared : C01_OneBreach(pre, E, post, a, g) = {}, "C06", "shared_locator")
+       \cup Tag(\A t \in post.trackers \ pre.trackers : (\E a \in shared : a.l = t.l) =>
+                    (\E a \in shared : Key(a) = Key(t) /\ t.d = a.l /\ t.p = Decrypt(BlobOf(a), a.l)), "C06", "shared_locator")
+
 C06_Sub(pre, E) ==
     IF E.reply.code # "ok" THEN {}
     ELSE Tag(E.reply.locators = {a.l : a \in {x \in pre.appts : x.u = E.who}}, "C06", "listing")
@@ -207,6 +215,9 @@ C08_Register(pre, E, post) ==
     ELSE Tag(E.reply.sig_ok, "C08", "signature")
          \cup Tag(HasUser(post.users, E.who) /\ UserOf(post.users, E.who) =
                     [u |-> E.who, slots |-> E.reply.slots, start |-> E.reply.start, expiry |-> E.reply.expiry], "C08", "not_persisted")
+         \* ... and the values it works with from now on (the copy the next request is checked against and persisted from)
+         \cup Tag(HasUser(post.gk, E.who) /\ UserOf(post.gk, E.who) =
+                    [u |-> E.who, slots |-> E.reply.slots, start |-> E.reply.start, expiry |-> E.reply.expiry], "C08", "not_held")
 
 C08_Add(pre, E, post) ==
     IF E.reply.code # "ok" THEN {}
